@@ -1204,3 +1204,25 @@ func (c *FnCFG) branchAtoms() []branchAtom {
 	}
 	return out
 }
+
+// ancestors returns the chain of nodes from root down to (and excluding) target, by node identity. Virtually inlined
+// code keeps the positions of the helper it came from, so containment must not be decided by positions.
+func ancestors(root, target ast.Node) []ast.Node {
+	var stack, found []ast.Node
+	ast.Inspect(root, func(x ast.Node) bool {
+		if found != nil {
+			return false
+		}
+		if x == nil {
+			stack = stack[:len(stack)-1]
+			return false
+		}
+		if x == target {
+			found = append([]ast.Node{}, stack...)
+			return false
+		}
+		stack = append(stack, x)
+		return true
+	})
+	return found
+}
